@@ -9,7 +9,10 @@ use std::sync::OnceLock;
 static HOOK: OnceLock<()> = OnceLock::new();
 
 fn judge(prop: &dyn Prop, case: &Value) {
-    HOOK.get_or_init(install_panic_hook);
+    HOOK.get_or_init(|| {
+        crate::exec::IN_FUZZ.store(true, std::sync::atomic::Ordering::SeqCst);
+        install_panic_hook()
+    });
     let o = crate::exec::worker::evaluate_guarded(prop, case);
     if let Verdict::Violation { kind, signature, detail } = &o.verdict {
         if kind == "harness" {
@@ -29,7 +32,12 @@ pub fn run_case(id: &str, case: Value) {
 }
 
 pub fn c12_case(data: &[u8]) -> Value {
-    json!({"text": String::from_utf8_lossy(data), "origin": "libfuzzer"})
+    // a trailing byte >= 0x80 is not text: its low seven bits are the lexer flags handed to
+    // new_with_options (plain ASCII seeds therefore keep the default flags)
+    match data.last() {
+        Some(b) if *b >= 0x80 => json!({"text": String::from_utf8_lossy(&data[..data.len() - 1]), "origin": "libfuzzer", "lex_flags": (*b & 0x7f) as u32}),
+        _ => json!({"text": String::from_utf8_lossy(data), "origin": "libfuzzer"}),
+    }
 }
 
 pub fn c19_case(data: &[u8]) -> Value {
